@@ -76,7 +76,7 @@ class C07(Check):
         kinds = {'S-update_var': ['one', 'all', 'arr', 'sub'], 'S-apply-values': ['nv', 'nv', 'one', 'ev'],
                  'S-edges': ['edge', 'ev', 'one', 'derive', 'edge'], 'S-compile-between': ['nv', 'ev', 'one', 'all'],
                  'S-failed-compile': ['fc', 'fc', 'one', 'one', 'all', 'sub'],
-                 'S-grow-circuit': ['addn', 'all', 'all', 'arr', 'one', 'arr'],
+                 'S-grow-circuit': ['addn', 'all', 'all', 'arr', 'one', 'arr', 'share', 'share'],
                  'S-mixed': ['one', 'all', 'arr', 'sub', 'nv', 'ev', 'edge', 'copy', 'derive', 'adapt', 'adapt', 'fc', 'addn']}[stratum]
         derived = False
         grown = False
@@ -171,12 +171,32 @@ class C07(Check):
                                 'edge_vars': [[e[0], e[1], {'weight': rng.randint(-40, 40) / 16 or 0.5}]]})
             elif k == 'copy':
                 ops.append({'op': 'deepcopy_continue'})
+            elif k == 'share':
+                # node b adopts the (possibly customised) template object of node a through the public add_node_template;
+                # afterwards each of the two is customised on its own
+                if depth == 1 and not derived:
+                    opsof = lambda n_: tuple(sorted(o for (m_, o) in net.inst if m_ == n_))
+                    pairs_ = [(a_, b_) for a_ in nodes for b_ in nodes if a_ != b_ and opsof(a_) == opsof(b_)]
+                    if pairs_:
+                        a_, b_ = rng.choice(pairs_)
+                        (la, lo), li = rng.choice([(key, i_) for key, i_ in net.inst.items() if key[0] == a_])
+                        lv = rng.choice(models.LIB[li['lib']]['const'] + models.LIB[li['lib']]['state'])
+                        ops.append({'op': 'update_var', 'on': 'T', 'node_vars': {f'{a_}/{lo}/{lv}': rng.randint(1, 60) / 16}})
+                        ops.append({'op': 'share_template', 'src': a_, 'dst': b_})
+                        lv2 = rng.choice(models.LIB[li['lib']]['const'] + models.LIB[li['lib']]['state'])
+                        ops.append({'op': 'update_var', 'on': 'T', 'node_vars': {f'{rng.choice([a_, b_])}/{lo}/{lv2}': rng.randint(1, 60) / 16}})
+                        grown = True
             elif k == 'addn':
                 # the circuit grows IN PLACE: a further node carrying the node template of an existing node (as it is now);
                 # wildcard overrides issued afterwards address the new node too, earlier ones did not
                 if depth == 1 and not derived and not any(o['op'] in ('derive', 'derive_circuits') for o in ops) and len(nodes) < 7:
                     like = rng.choice(nodes)
                     new = f'zn{j}'
+                    if rng.random() < 0.5:
+                        # the node whose template is re-used has been customised before (it carries its own template copy)
+                        (ln0, lo0), li0 = rng.choice([(key, i_) for key, i_ in net.inst.items() if key[0] == like])
+                        lv0 = rng.choice(models.LIB[li0['lib']]['const'] + models.LIB[li0['lib']]['state'])
+                        ops.append({'op': 'update_var', 'on': 'T', 'node_vars': {f'{like}/{lo0}/{lv0}': rng.randint(1, 60) / 16}})
                     ops.append({'op': 'add_node', 'like': like, 'name': new})
                     if rng.random() < 0.5:
                         # the new node's template is DERIVED from the existing node's (NodeTemplate.update_template) and gets
@@ -188,6 +208,12 @@ class C07(Check):
                     flat_nodes[new] = flat_nodes[like]
                     nodes.append(new)
                     grown = True
+                    if rng.random() < 0.6:
+                        # ... and the node that was added (it carries the template object of `like`) - or `like` itself - gets a
+                        # value of its own right away: the other one keeps its value
+                        (ln2, lo2), li2 = rng.choice([(key, i_) for key, i_ in net.inst.items() if key[0] == new])
+                        lv2 = rng.choice(models.LIB[li2['lib']]['const'] + models.LIB[li2['lib']]['state'])
+                        ops.append({'op': 'update_var', 'on': 'T', 'node_vars': {f'{rng.choice([new, like])}/{lo2}/{lv2}': rng.randint(1, 60) / 16}})
             elif k == 'fc':
                 # a compile of T itself (not in place) that FAILS inside code generation: disk error while the source file is
                 # written, or an interruption at an arbitrary internal call.  It must leave nothing behind that outlives it:
@@ -334,6 +360,23 @@ class C07(Check):
                     obsv.submit(snapshot(w.objs[name_]), 'obs_both')
                     expected.append((f'after op #{k} adapt_circuit (source must be unchanged): circuit {name_}',
                                      copy.deepcopy(rf_), None))
+            elif op['op'] == 'share_template':
+                try:
+                    T_ = w.objs['T']
+                    T_.add_node_template(op['dst'], T_.get_node_template(op['src']))
+                except Exception as e:
+                    res['violations'].append({'law': 'L-op', 'cls': 'loud', 'key': 'add_node_template',
+                                              'detail': f'op #{k} add_node_template raised {type(e).__name__}: {e}'})
+                    break
+                for (n_, o_), i_ in list(ref.inst.items()):
+                    if n_ == op['src']:
+                        keep_reads = ref.inst[(op['dst'], o_)].get('reads')
+                        ref.inst[(op['dst'], o_)] = copy.deepcopy(i_)
+                        if keep_reads:
+                            ref.inst[(op['dst'], o_)]['reads'] = keep_reads
+                bump('share_template')
+                obsv.submit(snapshot(w.objs['T']), 'obs_both')
+                expected.append((f'after op #{k} add_node_template({op["dst"]} <- template of {op["src"]})', copy.deepcopy(ref), None))
             elif op['op'] == 'add_node':
                 try:
                     T_ = w.objs['T']
